@@ -11,10 +11,30 @@ package h2c
 //@   split case len(domainSeparator) == 0
 //@   split case len(domainSeparator) > 255
 //@   ensures (len(domainSeparator) == 0) <==> (result != nil)
-//@   ensures (len(domainSeparator) >= 1 && len(domainSeparator) <= 255) ==> hashbytes(out[0:32], xmd_b1(bstr(domainSeparator), len(domainSeparator), bstr(message), len(out)), 0)
-//@   ensures (len(domainSeparator) >= 1 && len(domainSeparator) <= 255 && len(out) == 48) ==> hashbytes(out[32:48], xmd_bi(bstr(domainSeparator), len(domainSeparator), bstr(message), 48, xmd_b1(bstr(domainSeparator), len(domainSeparator), bstr(message), 48), 2), 0)
-//@   ensures (len(domainSeparator) >= 1 && len(domainSeparator) <= 255 && len(out) == 96) ==> hashbytes(out[32:64], xmd_bi(bstr(domainSeparator), len(domainSeparator), bstr(message), 96, xmd_b1(bstr(domainSeparator), len(domainSeparator), bstr(message), 96), 2), 0) && hashbytes(out[64:96], xmd_bi(bstr(domainSeparator), len(domainSeparator), bstr(message), 96, xmd_bi(bstr(domainSeparator), len(domainSeparator), bstr(message), 96, xmd_b1(bstr(domainSeparator), len(domainSeparator), bstr(message), 96), 2), 3), 0)
+//@   ensures (!(len(domainSeparator) == 0) && !(len(domainSeparator) > 255)) ==> hashbytes(out[0:32], xmd_b1(bstr(domainSeparator), len(domainSeparator), bstr(message), len(out)), 0)
+//@   ensures (!(len(domainSeparator) == 0) && !(len(domainSeparator) > 255) && len(out) == 48) ==> hashbytes(out[32:48], xmd_bi(bstr(domainSeparator), len(domainSeparator), bstr(message), 48, xmd_b1(bstr(domainSeparator), len(domainSeparator), bstr(message), 48), 2), 0)
+//@   ensures (!(len(domainSeparator) == 0) && !(len(domainSeparator) > 255) && len(out) == 96) ==> hashbytes(out[32:64], xmd_bi(bstr(domainSeparator), len(domainSeparator), bstr(message), 96, xmd_b1(bstr(domainSeparator), len(domainSeparator), bstr(message), 96), 2), 0) && hashbytes(out[64:96], xmd_bi(bstr(domainSeparator), len(domainSeparator), bstr(message), 96, xmd_bi(bstr(domainSeparator), len(domainSeparator), bstr(message), 96, xmd_b1(bstr(domainSeparator), len(domainSeparator), bstr(message), 96), 2), 3), 0)
 //@   ensures (len(domainSeparator) > 255) ==> hashbytes(out[0:32], xmd_b1(xmd_bigdst(bstr(domainSeparator)), 32, bstr(message), len(out)), 0)
 //@   ensures (len(domainSeparator) > 255 && len(out) == 48) ==> hashbytes(out[32:48], xmd_bi(xmd_bigdst(bstr(domainSeparator)), 32, bstr(message), 48, xmd_b1(xmd_bigdst(bstr(domainSeparator)), 32, bstr(message), 48), 2), 0)
 //@   ensures (len(domainSeparator) > 255 && len(out) == 96) ==> hashbytes(out[32:64], xmd_bi(xmd_bigdst(bstr(domainSeparator)), 32, bstr(message), 96, xmd_b1(xmd_bigdst(bstr(domainSeparator)), 32, bstr(message), 96), 2), 0) && hashbytes(out[64:96], xmd_bi(xmd_bigdst(bstr(domainSeparator)), 32, bstr(message), 96, xmd_bi(xmd_bigdst(bstr(domainSeparator)), 32, bstr(message), 96, xmd_b1(xmd_bigdst(bstr(domainSeparator)), 32, bstr(message), 96), 2), 3), 0)
 //@   modifies out
+//@
+//@ func Secp256k1_XMD_SHA256_SSWU_NU
+//@   props C15
+//@   split case len(domainSeparator) == 0
+//@   split case len(domainSeparator) > 255
+//@   ensures (len(domainSeparator) == 0) <==> (result1 != nil)
+//@   ensures (!(len(domainSeparator) == 0) && !(len(domainSeparator) > 255)) ==> result0.isValid && abs(result0) == h2c_map(fp(hashint(xmd_b1(bstr(domainSeparator), len(domainSeparator), bstr(message), 48), 32) * 340282366920938463463374607431768211456 + hashsl(xmd_bi(bstr(domainSeparator), len(domainSeparator), bstr(message), 48, xmd_b1(bstr(domainSeparator), len(domainSeparator), bstr(message), 48), 2), 0, 16)))
+//@   ensures (len(domainSeparator) > 255) ==> result0.isValid && abs(result0) == h2c_map(fp(hashint(xmd_b1(xmd_bigdst(bstr(domainSeparator)), 32, bstr(message), 48), 32) * 340282366920938463463374607431768211456 + hashsl(xmd_bi(xmd_bigdst(bstr(domainSeparator)), 32, bstr(message), 48, xmd_b1(xmd_bigdst(bstr(domainSeparator)), 32, bstr(message), 48), 2), 0, 16)))
+//@   ensures result1 != nil ==> result0 == nil
+//@   fresh result0
+//@
+//@ func Secp256k1_XMD_SHA256_SSWU_RO
+//@   props C15
+//@   split case len(domainSeparator) == 0
+//@   split case len(domainSeparator) > 255
+//@   ensures (len(domainSeparator) == 0) <==> (result1 != nil)
+//@   ensures (!(len(domainSeparator) == 0) && !(len(domainSeparator) > 255)) ==> result0.isValid && abs(result0) == padd(h2c_map(fp(hashint(xmd_b1(bstr(domainSeparator), len(domainSeparator), bstr(message), 96), 32) * 340282366920938463463374607431768211456 + hashsl(xmd_bi(bstr(domainSeparator), len(domainSeparator), bstr(message), 96, xmd_b1(bstr(domainSeparator), len(domainSeparator), bstr(message), 96), 2), 0, 16))), h2c_map(fp(hashsl(xmd_bi(bstr(domainSeparator), len(domainSeparator), bstr(message), 96, xmd_b1(bstr(domainSeparator), len(domainSeparator), bstr(message), 96), 2), 16, 32) * 115792089237316195423570985008687907853269984665640564039457584007913129639936 + hashint(xmd_bi(bstr(domainSeparator), len(domainSeparator), bstr(message), 96, xmd_bi(bstr(domainSeparator), len(domainSeparator), bstr(message), 96, xmd_b1(bstr(domainSeparator), len(domainSeparator), bstr(message), 96), 2), 3), 32))))
+//@   ensures (len(domainSeparator) > 255) ==> result0.isValid && abs(result0) == padd(h2c_map(fp(hashint(xmd_b1(xmd_bigdst(bstr(domainSeparator)), 32, bstr(message), 96), 32) * 340282366920938463463374607431768211456 + hashsl(xmd_bi(xmd_bigdst(bstr(domainSeparator)), 32, bstr(message), 96, xmd_b1(xmd_bigdst(bstr(domainSeparator)), 32, bstr(message), 96), 2), 0, 16))), h2c_map(fp(hashsl(xmd_bi(xmd_bigdst(bstr(domainSeparator)), 32, bstr(message), 96, xmd_b1(xmd_bigdst(bstr(domainSeparator)), 32, bstr(message), 96), 2), 16, 32) * 115792089237316195423570985008687907853269984665640564039457584007913129639936 + hashint(xmd_bi(xmd_bigdst(bstr(domainSeparator)), 32, bstr(message), 96, xmd_bi(xmd_bigdst(bstr(domainSeparator)), 32, bstr(message), 96, xmd_b1(xmd_bigdst(bstr(domainSeparator)), 32, bstr(message), 96), 2), 3), 32))))
+//@   ensures result1 != nil ==> result0 == nil
+//@   fresh result0
